@@ -1,6 +1,8 @@
 package props
 
 import (
+	"io"
+	"log"
 	"os"
 	"testing"
 
@@ -18,6 +20,7 @@ func TestMain(m *testing.M) {
 		}
 	}
 	stdr.SetVerbosity(0)
+	log.SetOutput(io.Discard)
 	code := m.Run()
 	kit.Flush()
 	os.Exit(code)
